@@ -34,28 +34,38 @@ var MarkerField = map[string]string{
 	"GetDevice": "Version", "GetTime": "", "SetTime": "",
 }
 
-// malformedAt gives, per operation, the offset of a boolean/BCD byte whose corruption must make the call fail.
-func malformedAt(op *rm.Op) (int, byte, bool) {
+// malformedCandidates lists, per operation, the bytes whose corruption must make the call fail: a boolean that is neither 0
+// nor 1, a non-decimal nibble in the controller's system date / time, a non-decimal nibble in a date-time value field
+// (GetTime, SetTime, the event timestamps) - the pinned decoders reject all three.
+func malformedCandidates(op *rm.Op) [][2]int {
+	out := [][2]int{}
 	if op.ReplyLayout() == nil {
-		return 0, 0, false
+		return out
 	}
 	for _, f := range op.ReplyLayout().Fields {
 		switch f.Kind {
 		case rm.Bool:
-			return f.Offset, 0x02, true
-		}
-	}
-	for _, f := range op.ReplyLayout().Fields {
-		switch f.Kind {
+			out = append(out, [2]int{f.Offset, 0x02})
 		case rm.SysDate, rm.SysTime:
-			return f.Offset, 0xaa, true
+			out = append(out, [2]int{f.Offset, 0xaa})
+		case rm.DateTime:
+			out = append(out, [2]int{f.Offset + 1, 0x2a}, [2]int{f.Offset + 4, 0xb3})
 		}
 	}
-	return 0, 0, false
+	return out
+}
+
+func malformedAt(r R, op *rm.Op) (int, byte, bool) {
+	c := malformedCandidates(op)
+	if len(c) == 0 {
+		return 0, 0, false
+	}
+	k := c[r.Pick(len(c))]
+	return k[0], byte(k[1]), true
 }
 
 // HasMalformed reports whether the operation has a field whose corruption is a hard error.
-func HasMalformed(op *rm.Op) bool { _, _, ok := malformedAt(op); return ok }
+func HasMalformed(op *rm.Op) bool { return len(malformedCandidates(op)) > 0 }
 
 // Datagram builds a datagram of the given class for op(serial, args); valid-looking ones carry marker.
 func (r R) Datagram(op *rm.Op, serial uint32, args rm.Vals, c Class, marker uint32) []byte {
@@ -147,7 +157,7 @@ func (r R) Datagram(op *rm.Op, serial uint32, args rm.Vals, c Class, marker uint
 		return m
 	case Malformed:
 		m := base()
-		off, v, ok := malformedAt(op)
+		off, v, ok := malformedAt(r, op)
 		if !ok {
 			panic(fmt.Sprintf("gen: %s has no malformed class", op.Name))
 		}
